@@ -145,8 +145,9 @@ CHECKS = {
         "documented) finishes with answers R and asking the query's node until it reports no answer finishes with R', then R' = R: "
         "same order, same multiplicity, syntactically equal substitution sets, same variable-id counter, stop flag and output "
         "(C01_refines = Proofs/RefineCut.refines_cut, by the refinement mapping `cden` from node states to the remaining "
-        "reference search: cden_fresh + cden_step; the only hypothesis is that the reference search finishes - it refuses cut "
-        "directly inside not/time). Also proved: the same against the cut-free reference Spec/SpecLazy.v, the `$Var = value` "
+        "reference search: cden_fresh + cden_step). CONVERSELY (C01_engine_finishes_then_reference_does): whenever asking the node until "
+        "exhaustion finishes, the reference search finishes too, for some fuel, with exactly that result - for every program "
+        "without a cut directly inside not/time (decidable kbokb; the reference refuses those by design). Also proved: the same against the cut-free reference Spec/SpecLazy.v, the `$Var = value` "
         "format of solve/solve_all, exhaustion (C05). Tie to the code: the reference searches are extracted and run as oracles "
         "against the implementation on every generated history (SpecCut/SpecLazy: exact substitution sets; the independently "
         "written eager trace semantics SpecSolve: answers up to renaming of unbound variables), and the executable solver "
